@@ -47,7 +47,7 @@ def run_engine(ctx, prefixes, n_quick=250, n_thorough=4000, mode="engine", extra
     # regression corpus first: op lines that exposed past failures (seeded changes), replayed on the real engine and the model
     corpus = os.path.join(vlib.VERIF, "corpus", "engine.ops")
     if os.path.exists(corpus) and mode == "engine":
-        outdir = ctx.run_harness(exe, "engine-replay", 1, extra={"VERIF_REPLAY": corpus})
+        outdir = ctx.run_harness(exe, "engine-replay", 1, extra={"VERIF_REPLAY": corpus, "VERIF_FASTPARK": "1"})
         if outdir:
             dis = ctx.diff(outdir, "engine-replay", classify=classify_engine)
             read_monitor(ctx, outdir, "engine-replay", prefixes)
@@ -65,7 +65,15 @@ def run_engine(ctx, prefixes, n_quick=250, n_thorough=4000, mode="engine", extra
         if not outdir:
             continue
         dis = ctx.diff(outdir, mode, classify=classify_engine)
+        nviol = len(ctx.violations)
         seen = read_monitor(ctx, outdir, mode, prefixes)
+        for v in ctx.violations[nviol:][:3]:      # minimise what was just found (bounded effort)
+            ops_line = v["replay"].get("ops") if isinstance(v["replay"], dict) else None
+            if ops_line and ops_line.startswith("engine "):
+                try:
+                    v["replay"]["minimal_ops"] = shrink_engine(ctx, exe, ops_line, want_sig=v["signature"])
+                except Exception as e:
+                    v["replay"]["minimal_ops_error"] = repr(e)
         sp = os.path.join(outdir, mode + ".stats")
         if os.path.exists(sp):
             dist = ctx.cov.setdefault("distribution", {})
@@ -75,9 +83,70 @@ def run_engine(ctx, prefixes, n_quick=250, n_thorough=4000, mode="engine", extra
         if dis:
             d = dis[0]
             first = first_divergence(d[2], d[3])
+            minimal = ""
+            try:
+                minimal = shrink_engine(ctx, exe, d[1])
+            except Exception as e:
+                minimal = "shrink failed: " + repr(e)
             ctx.broken.append({"kind": "correspondence", "name": "M-ENGINE vs real LockDB (E-seq)",
-                               "detail": f"{len(dis)} of the sequences disagree; first: {first} ops={d[1][:1500]}"})
+                               "detail": f"{len(dis)} of the sequences disagree; first: {first} minimal_ops={minimal[:1500]} ops={d[1][:1500]}"})
             ctx.cov.setdefault("disagreements", []).append({"op": d[1], "impl": d[2], "model": d[3]})
+
+
+def _replay_batch(ctx, exe, lines, tag):
+    """Run op lines on the real engine + model; returns per line (disagrees, set of monitor signatures)."""
+    rp = os.path.join(ctx.tmp, f"shrink-{tag}.txt")
+    open(rp, "w").write("\n".join(lines) + "\n")
+    sub = vlib.Ctx("shrink", "quick")
+    sub.tmp = ctx.tmp
+    outdir = sub.run_harness(exe, "engine-replay", 1, seed=f"shrink{tag}", extra={"VERIF_REPLAY": rp, "VERIF_FASTPARK": "1"}, timeout=120)
+    if not outdir:
+        return None
+    ops = open(os.path.join(outdir, "engine-replay.ops")).read().split("\n")
+    impl = open(os.path.join(outdir, "engine-replay.impl")).read().split("\n")
+    mp = sub.run_model(os.path.join(outdir, "engine-replay.ops"))
+    model = open(mp).read().split("\n") if mp else []
+    sigs = {}
+    for l in open(os.path.join(outdir, "engine-replay.mon")):
+        m = json.loads(l)
+        sigs.setdefault(m["replay"].get("ops", ""), set()).add(m["signature"])
+    res = []
+    for i in range(min(len(lines), len(ops))):
+        dis = i < len(model) and i < len(impl) and impl[i] != model[i]
+        res.append((ops[i], dis, sigs.get(ops[i], set())))
+    return res
+
+
+def shrink_engine(ctx, exe, line, want_sig=None, budget=14):
+    """Delta debugging over the op list of one engine line: the smallest sub-sequence on which the same monitor signature
+    (or, with want_sig=None, a model/implementation disagreement) still shows. Bounded number of harness invocations."""
+    head, now0, rest = line.split(" ", 2)
+    ops = [o for o in rest.split(";") if o]
+
+    def fails(r):
+        return (want_sig in r[2]) if want_sig else r[1]
+    n = 2
+    while len(ops) >= 2 and budget > 0:
+        size = max(1, len(ops) // n)
+        cands = []
+        for i in range(0, len(ops), size):
+            c = ops[:i] + ops[i + size:]
+            if c:
+                cands.append(c)
+        res = _replay_batch(ctx, exe, [f"{head} {now0} " + ";".join(c) for c in cands], budget)
+        budget -= 1
+        if res is None:
+            break
+        hit = next((k for k, r in enumerate(res) if fails(r)), None)
+        if hit is not None:
+            # the harness re-derives the op strings (oracle bits); keep the executed form
+            ops = [o for o in res[hit][0].split(" ", 2)[2].split(";") if o]
+            n = max(n - 1, 2)
+        elif size == 1:
+            break
+        else:
+            n = min(len(ops), n * 2)
+    return f"{head} {now0} " + ";".join(ops)
 
 
 def first_divergence(impl, model):
